@@ -41,7 +41,6 @@ FromU64(b) == b[1] + 256 * b[2] + 65536 * b[3]
 (* come into play (seed C15_7: a length byte >= 0x80 was sign-extended by the decoder)                                        *)
 LongLens == {127, 128, 129, 255, 256, 257, 384, 32767, 32768, 65535, 65536}
 LongStrs == { [i \in 1..n |-> IF i = n THEN 47 ELSE 97] : n \in LongLens }
-MidStrs == { ls \in LongStrs : Len(ls) < 1000 }            \* inside string lists (Flat/SplitNul recurse per byte)
 
 (* ---------------- BuildValue ---------------- *)
 KindNames == <<"Invalid", "VirtualInput", "ExistingInput", "MissingInput", "DirectoryContents", "DirectoryTreeSignature",
@@ -63,8 +62,6 @@ Values ==
   \cup { [kind |-> "SuccessfulCommandWithOutputSignature", sig |-> s, infos |-> is, strs |-> <<>>] : s \in {Z8, <<0,0,0,0,1,0,0,0>>}, is \in InfoSeqs }
   \cup { [kind |-> "DirectoryContents", sig |-> NoSig, infos |-> <<i>>, strs |-> l] : i \in FewInfos, l \in StrLists }
   \cup { [kind |-> k, sig |-> NoSig, infos |-> <<>>, strs |-> l] : k \in {"FilteredDirectoryContents", "StaleFileRemoval"}, l \in StrLists }
-  \cup { [kind |-> k, sig |-> NoSig, infos |-> <<>>, strs |-> l] : k \in {"FilteredDirectoryContents", "StaleFileRemoval"},
-                                                                  l \in UNION { {<<ls>>, <<<<97>>, ls>>} : ls \in MidStrs } }
 
 RECURSIVE EncInfos(_)
 EncInfos(is) == IF is = <<>> THEN <<>> ELSE EncInfo(Head(is)) \o EncInfos(Tail(is))
